@@ -347,6 +347,17 @@ class Pair:
             if rc == 0 and k == len(cases):
                 break
             if k < len(cases):
+                if isinstance(err, str) and err.startswith("TIMEOUT"):
+                    # the batch ran out of wall-clock time (a loaded machine is the usual reason): the case at
+                    # which the output stopped is run once more on its own; only a second time-out is a failure
+                    rc1, out1, err1 = run_proc(self.h, cases[k].text(), self.timeout, cwd=self.cwd)
+                    if not (isinstance(err1, str) and err1.startswith("TIMEOUT")) and len(out1) >= sizes[k]:
+                        impl_by_case[k] = out1[:sizes[k]]
+                        if rc1 != 0:
+                            crash_by_case[k] = (rc1, err1)
+                        start = k + 1
+                        continue
+                    err = "hang reproduced twice: " + str(err1)
                 impl_by_case[k] = out[pos:]
                 crash_by_case[k] = (rc, err)
                 start = k + 1
